@@ -213,7 +213,7 @@ impl W {
     }
 
     pub fn mk_sub(&self, s: u8, id: u32, gate: u8, gate_all: bool, read_wh: u32) -> ScriptedSub {
-        ScriptedSub { ctx: self.ctx.clone(), store: s, id, gate, gate_all, read_wh, counter: None, unsub_counter: None }
+        ScriptedSub { ctx: self.ctx.clone(), store: s, id, gate, gate_all, read_wh, counter: None, unsub_counter: None, hook: None }
     }
 
     /// add_subscriber with a fresh scripted direct subscriber
@@ -267,6 +267,27 @@ impl W {
         .expect("subscribed_with failed");
         self.ctx.ev(K::AddRet, s, 0, id, 0, 0, REG_SUB);
         (id, sn)
+    }
+
+    /// channeled subscriber built from a prepared ScriptedSub (hooks, gates)
+    pub fn add_channeled_sub(&self, s: u8, cap: usize, pol: u8, at_build: bool, prep: impl FnOnce(&mut ScriptedSub)) -> (u32, Box<dyn Subscription>) {
+        let id = self.new_sub_info(s, SK_CHANNELED, cap, pol, at_build, false);
+        let mut sub = self.mk_sub(s, id, NOGATE, false, 0);
+        prep(&mut sub);
+        let _o = Out::new(self.log());
+        let st = &self.stores[s as usize];
+        self.ctx.ev(K::AddInv, s, 0, id, SK_CHANNELED as u64, 0, REG_SUB);
+        let sn = StoreImpl::subscribed_with(st, cap, policy(pol), Box::new(sub)).expect("subscribed_with failed");
+        self.ctx.ev(K::AddRet, s, 0, id, SK_CHANNELED as u64, 0, REG_SUB);
+        (id, sn)
+    }
+
+    /// direct subscriber built from a prepared ScriptedSub
+    pub fn add_direct_sub(&self, s: u8, at_build: bool, prep: impl FnOnce(&mut ScriptedSub)) -> (u32, Box<dyn Subscription>) {
+        let id = self.new_sub_info(s, SK_DIRECT, 0, 0, at_build, false);
+        let mut sub = self.mk_sub(s, id, NOGATE, false, 0);
+        prep(&mut sub);
+        (id, self.add_sub_arc(s, id, Arc::new(sub), false))
     }
 
     pub fn add_selector(&self, s: u8, at_build: bool) -> (u32, Box<dyn Subscription>) {
